@@ -611,7 +611,7 @@ def harnesses(tier: str) -> List[Harness]:
         hs.append(Harness("pool_1fault", h_pool1, _slices(1, 0, (0, 1), warm) + _slices(2, 0, (0, 1), warm) + _slices(3, 1, (0,), warm)
                           + _slices(3, 0, (0,), (2,), TWO_CFG), budget_s=2500))
         hs.append(Harness("pool_2faults", h_pool2, _slices(1, 0, (0, 1), warm) + _slices(2, 0, (0,), warm) + _slices(3, 1, (0,), (2,), TWO_CFG[:1]), budget_s=2500))
-        hs.append(Harness("pool_1fault_long", h_pool1_long, _slices(4, 1, (0,), (2,), TWO_CFG[:1]), budget_s=2500))
+        hs.append(Harness("pool_1fault_long", h_pool1_long, _slices(4, 1, (0,), (2,), TWO_CFG[:1]), budget_s=1200))
     return hs
 
 
